@@ -70,10 +70,11 @@ type State struct {
 	notes   []string
 	defs    map[string]string
 	asserted map[string]bool
+	escaped  map[string]bool // allocation refs whose address may be known to code outside the current path
 }
 
 func newState() *State {
-	return &State{heap: map[string]string{}, ghost: map[string]string{}, declSet: map[string]bool{}, facts: map[string]*Val{}, defs: map[string]string{}, asserted: map[string]bool{}}
+	return &State{heap: map[string]string{}, ghost: map[string]string{}, declSet: map[string]bool{}, facts: map[string]*Val{}, defs: map[string]string{}, asserted: map[string]bool{}, escaped: map[string]bool{}}
 }
 
 func copyMap(m map[string]string) map[string]string {
@@ -102,6 +103,10 @@ func (s *State) clone() *State {
 	}
 	for k, v := range s.asserted {
 		n.asserted[k] = v
+	}
+	n.escaped = make(map[string]bool, len(s.escaped))
+	for k, v := range s.escaped {
+		n.escaped[k] = v
 	}
 	for k, v := range s.declSet {
 		n.declSet[k] = v
@@ -275,9 +280,42 @@ func (e *Engine) havocAllHeap(st *State) {
 		if strings.HasPrefix(k, "G|") && e.isSentinelKey(k) {
 			continue
 		}
+		old, had := st.heap[k]
 		e.heapHavoc(st, k)
+		// allocations of this path whose address never escaped cannot be reached by anybody else: they keep their content
+		if had && !strings.HasPrefix(k, "G|") {
+			for _, a := range st.allocs {
+				if !st.escaped[a] {
+					st.pc = append(st.pc, eq(sel(st.heap[k], a), sel(old, a)))
+				}
+			}
+		}
 	}
-	st.facts = map[string]*Val{}
+	kept := map[string]*Val{}
+	for fk, v := range st.facts {
+		// facts about non-escaped allocations survive
+		for _, a := range st.allocs {
+			if !st.escaped[a] && strings.Contains(fk, "@"+a) {
+				kept[fk] = v
+			}
+		}
+	}
+	st.facts = kept
+}
+
+// markEscaped records every allocation reference occurring in a term as escaped.
+func (st *State) markEscaped(term string) {
+	for i := 0; i+3 < len(term); i++ {
+		if term[i] == '(' && term[i+1] == '-' && term[i+2] == ' ' {
+			j := i + 3
+			for j < len(term) && term[j] >= '0' && term[j] <= '9' {
+				j++
+			}
+			if j < len(term) && term[j] == ')' && j > i+3 {
+				st.escaped[term[i:j+1]] = true
+			}
+		}
+	}
 }
 
 // wfRef returns the constraint that a (possibly loaded/havocked) value of the given sort only
